@@ -130,6 +130,11 @@ func (a *Affiliation) computeTriggersForCastingSites(pass *analysishelper.Enhanc
 						appendTypeToTypeTriggers(lhsType, rhsType)
 					}
 				case *ast.CallExpr:
+					// explicit conversion to an interface type, e.g., I(&S{}), or I(j) for a value j of another interface type
+					if tv, ok := pass.TypesInfo.Types[node.Fun]; ok && tv.IsType() && len(node.Args) == 1 {
+						appendTypeToTypeTriggers(tv.Type, pass.TypesInfo.TypeOf(node.Args[0]))
+					}
+
 					// e.g., func foo(i I), foo(&S{})
 					if ident := asthelper.FuncIdentFromCallExpr(node); ident != nil {
 						if declObj := pass.TypesInfo.Uses[ident]; declObj != nil {
